@@ -158,7 +158,7 @@ def run(tier, seed):
         A.run_case(impl.AuthPolicy(b"e" * 16, "example.com", "https://example.com", vr.credential_public_key, vr.sign_count, False), a, "record", "accept", f"authenticate-after/rsa-exponent-{e}")
         registered.append((f"none/RS256-e{e}", rc, vr.credential_id + bytes([e % 251]), vr.credential_public_key, vr.sign_count))
     # RSA moduli that are large or not a multiple of 8 bits, PKCS#1 v1.5 and PSS, in every input form (long signatures travel as long base64url members)
-    for bits, kinds2 in ((1025, ("RS256", "PS256")), (1033, ("PS256", "PS512")), (3072, ("RS256",)), (4096, ("RS256", "PS384"))) if not quick else ((1025, ("PS256",)), (1033, ("PS256",)), (4096, ("RS256",))):
+    for bits, kinds2 in ((1025, ("RS256", "PS256")), (1033, ("PS256", "PS384")), (3072, ("RS256",)), (4096, ("RS256", "PS384"))) if not quick else ((1025, ("PS256",)), (1033, ("PS256",)), (4096, ("RS256",))):
         for kind2 in kinds2:
             rc = authsim.rsa_cred_bits(bits, kind2)
             s = regsim.RScn("none", kind2)
